@@ -404,7 +404,7 @@ class ClientWorldObjectManager:
                 # `Avatar` instances are handled separately. Update all Avatar objects,
                 # so we can deal with the RegionHandle change.
                 self._rebuild_avatar_objects()
-        elif new_parent_id != old_parent_id:
+        elif new_parent_id != old_parent_id and new_region_state is not None:
             # Parent ID changed, but we're in the same region
             new_region_state.handle_object_reparented(obj, old_parent_id=old_parent_id)
 
